@@ -13,6 +13,7 @@ Inductive gn : Type := GN (label : N) (kids : list gn).
 
 (* source labels *)
 Definition L_ANN := 1.  Definition L_VERSION := 2.  Definition L_INC_STD := 3.  Definition L_INC_FILE := 4.
+Definition L_EMPTY := 15.   (* the empty statement `;`: no node in the tree, nothing in the graph *)
 Definition L_IF := 5.  Definition L_WHILE := 6.  Definition L_FOR := 7.  Definition L_SWITCH := 8.
 Definition L_GATEDEF := 9.  Definition L_DEF := 10.  Definition L_BLOCK := 11.  Definition L_SINGLE := 12.
 Definition L_LEAF := 13.  Definition L_CASE := 14.
@@ -35,6 +36,10 @@ Definition cons_opt (o : option gn) (l : list gn) : list gn :=
    top-level loop.  So the translation splits into the structure of a statement (tr_stmt, which
    ignores annotations) and the annotations met while translating it, in the order met
    (anns_of): the top-level loop attaches pending ++ anns_of s to the translation of s. *)
+Definition is_empty_single (b : gn) : bool :=
+  match b with
+  | GN l ks => negb (l =? L_BLOCK) && match ks with [GN l2 _] => l2 =? L_EMPTY | _ => false end
+  end.
 Fixpoint tr_stmt (s : gn) {struct s} : option gn :=
   let tr_list :=
     fix tl (ss : list gn) {struct ss} : list gn :=
@@ -48,7 +53,7 @@ Fixpoint tr_stmt (s : gn) {struct s} : option gn :=
     | GN l ks =>
         if l =? L_BLOCK then GN O_BLOCK (tr_list ks)
         else match ks with
-             | [x] => GN O_BLOCK (match tr_stmt x with Some g => [g] | None => [GN O_BAD []] end)
+             | [x] => GN O_BLOCK (cons_opt (tr_stmt x) [])   (* a statement that produces nothing: empty block *)
              | _ => GN O_BAD []
              end
     end in
@@ -61,12 +66,14 @@ Fixpoint tr_stmt (s : gn) {struct s} : option gn :=
       end in
   match s with
   | GN l ks =>
-      if (l =? L_ANN) || (l =? L_VERSION) || (l =? L_INC_STD) || (l =? L_INC_FILE) then None
+      if (l =? L_ANN) || (l =? L_VERSION) || (l =? L_INC_STD) || (l =? L_INC_FILE) || (l =? L_EMPTY) then None
       else if l =? L_LEAF then Some (GN O_LEAF ks)
       else if l =? L_IF then
         match ks with
         | [c; t] => Some (GN O_IF [c; tr_body t; none])
-        | [c; t; e] => Some (GN O_IF [c; tr_body t; some (tr_body e)])
+        | [c; t; e] =>
+            (* `else ;` leaves no node behind: the if has no else branch *)
+            Some (GN O_IF [c; tr_body t; if is_empty_single e then none else some (tr_body e)])
         | _ => Some (GN O_BAD [])
         end
       else if l =? L_WHILE then
